@@ -12,12 +12,16 @@
 //!                     swapped from a dictionary of PDF keys, tokens deleted / duplicated, references re-pointed
 //!   grammar           documents from the grammar-directed generator (docgen.rs), plain and mutated
 //!   soup              `%PDF-` followed by random token soup / random bytes
+//!   witness           deterministic documents that stress the native stack and the loops of the lexical core
+//!                     (300000 line continuations in a string, 200000 nested arrays, 300000 comments, …):
+//!                     regression witnesses of the repaired defects
 //! A document counts as a failure when any call panics, the child dies (stack overflow, abort, allocation
 //! failure) or the walk exceeds its time limit. Failures are classified by the panic site (`file:line`) or by
 //! the kind of death; the replay file holds the bytes and the configuration.
 //!
-//! Correspondence streams for the lexical / syntactic core (model = Model/Lexer, StrLexer, Parser) live in
-//! c01_corr.rs once those models are merged; every input of those streams is in C01's domain.
+//! Correspondence streams for the lexical / syntactic core (model = Model/Lexer, StrLexer, Parser, ContentLoop,
+//! XrefTable) and the function-level oracle `c01.entry` live in c01_corr.rs; every input of those streams is in
+//! C01's domain.
 
 use crate::c14::walker::{self, Doc, DocResult, Limits, Outcome};
 use crate::corpus;
@@ -41,8 +45,12 @@ fn cfg(i: u64) -> (bool, bool) {
 }
 
 fn walk_all(docs: &[Doc], limits: Limits) -> Vec<DocResult> {
+    walk_chunked(docs, limits, 200)
+}
+
+fn walk_chunked(docs: &[Doc], limits: Limits, max_chunk: usize) -> Vec<DocResult> {
     let threads = std::thread::available_parallelism().map(|n| n.get()).unwrap_or(4).clamp(2, 14);
-    let chunk = ((docs.len() + threads * 4 - 1) / (threads * 4)).clamp(1, 200);
+    let chunk = ((docs.len() + threads * 4 - 1) / (threads * 4)).clamp(1, max_chunk);
     let chunks: Vec<&[Doc]> = docs.chunks(chunk).collect();
     let next = std::sync::atomic::AtomicUsize::new(0);
     let results: Vec<std::sync::Mutex<Vec<DocResult>>> = chunks.iter().map(|_| std::sync::Mutex::new(vec![])).collect();
@@ -90,8 +98,139 @@ fn soup(rng: &mut Rng) -> Vec<u8> {
     b
 }
 
-/// deterministic regression witnesses of repaired defects, walked first on every run
-fn witnesses() -> Vec<(String, Vec<u8>)> {
+/// a classic-table document with the given object bodies (object 1 is the catalog, 2 the page tree)
+fn tiny_doc(extra: &[Vec<u8>]) -> Vec<u8> {
+    tiny_doc_pages(b"<</Type/Pages/Kids[]/Count 0>>", extra)
+}
+
+fn tiny_doc_pages(pages: &[u8], extra: &[Vec<u8>]) -> Vec<u8> {
+    let mut objs: Vec<Vec<u8>> = vec![b"<</Type/Catalog/Pages 2 0 R>>".to_vec(), pages.to_vec()];
+    objs.extend(extra.iter().cloned());
+    let mut b = b"%PDF-1.4\n".to_vec();
+    let mut offs = vec![];
+    for (i, o) in objs.iter().enumerate() {
+        offs.push(b.len());
+        b.extend_from_slice(format!("{} 0 obj\n", i + 1).as_bytes());
+        b.extend_from_slice(o);
+        b.extend_from_slice(b"\nendobj\n");
+    }
+    let x = b.len();
+    b.extend_from_slice(format!("xref\n0 {}\n0000000000 65535 f \n", objs.len() + 1).as_bytes());
+    for o in offs {
+        b.extend_from_slice(format!("{:010} 00000 n \n", o).as_bytes());
+    }
+    b.extend_from_slice(format!("trailer\n<</Size {}/Root 1 0 R>>\nstartxref\n{}\n%%EOF", objs.len() + 1, x).as_bytes());
+    b
+}
+
+/// a document whose only cross-reference section is a stream with the given /W, extra entries and data
+fn xref_stream_doc(w: &str, extra: &str, data: &[u8]) -> Vec<u8> {
+    let mut b = b"%PDF-1.5\n1 0 obj\n<</Type/Catalog/Pages 2 0 R>>\nendobj\n2 0 obj\n<</Type/Pages/Kids[]/Count 0>>\nendobj\n".to_vec();
+    let x = b.len();
+    b.extend_from_slice(format!("3 0 obj\n<</Type/XRef/Size 4/Root 1 0 R/W{}{}/Length {}>>\nstream\n", w, extra, data.len()).as_bytes());
+    b.extend_from_slice(data);
+    b.extend_from_slice(format!("\nendstream\nendobj\nstartxref\n{}\n%%EOF", x).as_bytes());
+    b
+}
+
+fn repeat(piece: &[u8], n: usize, head: &[u8], tail: &[u8]) -> Vec<u8> {
+    let mut v = head.to_vec();
+    for _ in 0..n {
+        v.extend_from_slice(piece);
+    }
+    v.extend_from_slice(tail);
+    v
+}
+
+/// Deterministic documents that stress the *native stack* and the loops of the lexical core: regression
+/// witnesses of the defects this package repaired (the run of line continuations overflowed the stack) and
+/// of the bounds the theorems state (nesting limit, loops that consume input).
+fn witness_docs() -> Vec<(&'static str, Vec<u8>)> {
+    let k = 300_000;
+    vec![
+        ("string with 300000 line continuations (LF)", tiny_doc(&[repeat(b"\\\n", k, b"(", b"x)")])),
+        ("string with 300000 line continuations (CR)", tiny_doc(&[repeat(b"\\\r", k, b"(", b"x)")])),
+        ("string with 300000 line continuations (CR LF), unterminated", tiny_doc(&[repeat(b"\\\r\n", k, b"(", b"")])),
+        ("content stream holding a string with 300000 line continuations", {
+            let body = repeat(b"\\\n", k, b"BT (", b"x) Tj ET");
+            let mut o = format!("<</Length {}>>\nstream\n", body.len()).into_bytes();
+            o.extend_from_slice(&body);
+            o.extend_from_slice(b"\nendstream");
+            let page = b"<</Type/Page/Parent 2 0 R/MediaBox[0 0 9 9]/Contents 3 0 R>>".to_vec();
+            tiny_doc_pages(b"<</Type/Pages/Kids[4 0 R]/Count 1>>", &[o, page])
+        }),
+        ("array nested 200000 deep", tiny_doc(&[repeat(b"[", 200_000, b"", b"")])),
+        ("dictionary nested 100000 deep", tiny_doc(&[repeat(b"<</A ", 100_000, b"", b"")])),
+        ("300000 comments in front of a token", tiny_doc(&[repeat(b"%c\n", k, b"", b"7")])),
+        ("string with 1000000 opening parentheses", tiny_doc(&[repeat(b"(", 1_000_000, b"(", b"")])),
+        ("hexadecimal string of 1000000 white-space bytes", tiny_doc(&[repeat(b" ", 1_000_000, b"<", b"41>")])),
+        ("name of 1000000 characters", tiny_doc(&[repeat(b"a", 1_000_000, b"/", b"")])),
+        ("sampled function with /Domain [0 1 3 1] (min > max: f32::clamp panicked)",
+            tiny_doc(&[b"<</FunctionType 0/Domain[0 1 3 1]/Range[0 1]/Size[2 2]/BitsPerSample 8/Length 4>>\nstream\n\x00\x40\x80\xff\nendstream".to_vec()])),
+        ("trailer /Size 2147483647 (the table is sized from it)", {
+            let d = tiny_doc(&[]);
+            String::from_utf8_lossy(&d).replace("/Size 3", "/Size 2147483647").into_bytes()
+        }),
+        ("trailer /Size 1000001 (one above MAX_ID)", {
+            let d = tiny_doc(&[]);
+            String::from_utf8_lossy(&d).replace("/Size 3", "/Size 1000001").into_bytes()
+        }),
+        ("trailer /Prev that points at its own section", {
+            let d = tiny_doc(&[]);
+            let x = d.windows(6).position(|w| w == b"\nxref\n").map(|i| i + 1).unwrap_or(0);
+            String::from_utf8_lossy(&d).replace("/Size 3", &format!("/Size 3/Prev {}", x)).into_bytes()
+        }),
+        ("xref entries with offsets 18446744073709551615 and 9999999999", {
+            let d = tiny_doc(&[b"7".to_vec(), b"8".to_vec()]);
+            let t = String::from_utf8_lossy(&d).to_string();
+            let lines: Vec<&str> = t.lines().collect();
+            let mut out = String::new();
+            let mut seen = 0;
+            for l in lines {
+                if l.ends_with(" 00000 n ") { seen += 1; if seen == 3 { out.push_str("18446744073709551615 00000 n \n"); continue; } if seen == 4 { out.push_str("9999999999 00000 n \n"); continue; } }
+                out.push_str(l); out.push('\n');
+            }
+            out.into_bytes()
+        }),
+        ("the same behind 6 bytes in front of the header (start offset + entry offset overflows)", {
+            let d = tiny_doc(&[b"7".to_vec(), b"8".to_vec()]);
+            let t = String::from_utf8_lossy(&d).to_string();
+            let mut out = String::from("%junk\n");
+            let mut seen = 0;
+            for l in t.lines() {
+                if l.ends_with(" 00000 n ") { seen += 1; if seen == 3 { out.push_str("18446744073709551615 00000 n \n"); continue; } if seen == 4 { out.push_str("18446744073709551610 00000 n \n"); continue; } }
+                out.push_str(l); out.push('\n');
+            }
+            out.into_bytes()
+        }),
+        ("streams with corrupt data for every filter", {
+            let st = |filter: &str, data: &[u8]| { let mut o = format!("<</Filter/{}/Length {}>>\nstream\n", filter, data.len()).into_bytes(); o.extend_from_slice(data); o.extend_from_slice(b"\nendstream"); o };
+            tiny_doc(&[
+                st("ASCII85Decode", b"uuuuu~>"), st("ASCII85Decode", b"zz!!~"), st("ASCII85Decode", b"!~>"),
+                st("ASCIIHexDecode", b"4g>"), st("ASCIIHexDecode", b"4"), st("RunLengthDecode", &[5, 1, 2]), st("RunLengthDecode", &[200]),
+                st("LZWDecode", &[0xff, 0xff, 0xff, 0x00]), st("FlateDecode", &[0x78, 0x9c, 0xff, 0xff]), st("FlateDecode", b""),
+                st("DCTDecode", &[0xff, 0xd8, 0xff]), st("CCITTFaxDecode", &[0, 1, 2]), st("JBIG2Decode", &[0]), st("Crypt", b"x"),
+            ])
+        }),
+        ("stream with /Length 2147483647", tiny_doc(&[b"<</Length 2147483647>>\nstream\nabc\nendstream".to_vec()])),
+        ("stream whose /Length refers to itself", tiny_doc(&[b"<</Length 3 0 R>>\nstream\nabc\nendstream".to_vec()])),
+        ("page tree with /Count 2147483647 and itself as kid", tiny_doc_pages(b"<</Type/Pages/Kids[2 0 R 2 0 R]/Count 2147483647>>", &[])),
+        ("cross-reference stream with /W [0 0 0]", xref_stream_doc("[0 0 0]", "", b"")),
+        ("cross-reference stream with /W [8 8 8] and /Index [0 4294967295]", xref_stream_doc("[8 8 8]", "/Index[0 4294967295]", &[1u8; 48])),
+        ("cross-reference stream with /W [9 1 1]", xref_stream_doc("[9 1 1]", "", &[1u8; 33])),
+        ("cross-reference stream with /W [1 2 1] and an entry of type 7", xref_stream_doc("[1 2 1]", "", &[0, 0, 0, 255, 1, 0, 9, 0, 7, 0, 20, 0])),
+        ("object stream with /N 2147483647 /First 2147483647", tiny_doc(&[b"<</Type/ObjStm/N 2147483647/First 2147483647/Length 7>>\nstream\n5 0 (a)\nendstream".to_vec()])),
+        ("xref subsection that claims 4294967295 entries", {
+            let mut d = tiny_doc(&[]);
+            let pat = b"xref\n0 3\n";
+            if let Some(i) = d.windows(pat.len()).position(|w| w == pat) { d.splice(i..i + pat.len(), b"xref\n0 4294967295\n".iter().cloned()); }
+            d
+        }),
+    ]
+}
+
+/// deterministic regression witnesses cut out of generated documents (added on main with fix 28a4efa)
+fn generated_witnesses() -> Vec<(String, Vec<u8>)> {
     let mut out = vec![];
     // 28a4efa: sampled function with a reversed /Domain interval (f32::clamp panicked with min > max)
     for case in 0..400u64 {
@@ -109,17 +248,38 @@ fn witnesses() -> Vec<(String, Vec<u8>)> {
     out
 }
 
-fn build_cases(seed: u64, thorough: bool) -> (Vec<Case>, Vec<String>) {
+/// `corpus::normalise` runs the real library in this process: under a watchdog, so that a reader that hangs
+/// is reported instead of hanging the check (`None`: no answer within 30 s; the thread is abandoned)
+fn normalise_guarded(bytes: &[u8]) -> Option<Option<Vec<u8>>> {
+    let b = bytes.to_vec();
+    corr::with_timeout(30, move || corpus::normalise(&b))
+}
+
+struct PrepFailure {
+    signature: String,
+    what: String,
+    replay: serde_json::Value,
+}
+
+fn build_cases(seed: u64, thorough: bool) -> (Vec<Case>, Vec<String>, Vec<PrepFailure>) {
     let mut cases = vec![];
     let mut notes = vec![];
-    for (name, bytes) in witnesses() {
+    let mut prep = vec![];
+    let mut normalise_hung = false;
+    for (name, bytes) in generated_witnesses() {
         for c in 0..4 {
             let (t, ca) = cfg(c);
             cases.push(Case { family: "witness", desc: name.clone(), doc: Doc { bytes: bytes.clone(), tolerant: t, cached: ca } });
         }
     }
+    for (desc, bytes) in witness_docs() {
+        for c in [0u64, 3] {
+            let (t, ca) = cfg(c);
+            cases.push(Case { family: "witness", desc: desc.to_string(), doc: Doc { bytes: bytes.clone(), tolerant: t, cached: ca } });
+        }
+    }
     let fixtures = corpus::fixture_files();
-    let scale = if thorough { 60 } else { 4 };
+    let scale = if thorough { 60 } else { 6 };
     let mut normalised: Vec<(String, Vec<u8>)> = vec![];
     for (name, bytes) in &fixtures {
         let short = name.rsplit('/').next().unwrap_or(name).to_string();
@@ -127,7 +287,19 @@ fn build_cases(seed: u64, thorough: bool) -> (Vec<Case>, Vec<String>) {
             let (t, ca) = cfg(c);
             cases.push(Case { family: "fixtures", desc: short.clone(), doc: Doc { bytes: bytes.clone(), tolerant: t, cached: ca } });
         }
-        if let Some(n) = corpus::normalise(bytes) {
+        let norm = if normalise_hung { None } else {
+            match normalise_guarded(bytes) {
+                Some(n) => n,
+                None => {
+                    normalise_hung = true;
+                    notes.push(format!("reading fixture {} (load + resolve of every object, in-process) did not return within 30 s: fixtures are not normalised in this run", short));
+                    prep.push(PrepFailure { signature: "timeout".into(), what: format!("fixtures / {}: loading the file and resolving its objects by number did not return within 30 s", short),
+                        replay: json!({"stream": "c01.walk", "seed": seed, "family": "fixtures", "doc": short, "tolerant": true, "cached": false, "file_hex": hex(bytes)}) });
+                    None
+                }
+            }
+        };
+        if let Some(n) = norm {
             for c in [0u64, 3] {
                 let (t, ca) = cfg(c);
                 cases.push(Case { family: "normalised", desc: short.clone(), doc: Doc { bytes: n.clone(), tolerant: t, cached: ca } });
@@ -178,7 +350,7 @@ fn build_cases(seed: u64, thorough: bool) -> (Vec<Case>, Vec<String>) {
         let (t, ca) = cfg(rng.below(4));
         cases.push(Case { family: "soup", desc: format!("soup#{}", case), doc: Doc { bytes, tolerant: t, cached: ca } });
     }
-    (cases, notes)
+    (cases, notes, prep)
 }
 
 /// signature of a failure: the panic site, or the kind of death
@@ -207,7 +379,7 @@ pub fn run(driver: &Driver, seed: u64, thorough: bool, replay: Option<&serde_jso
         walker::maybe_child(r);
     }
     let mut rep = Report::new("C01");
-    let limits = Limits { max_objects: 40, time_limit_ms: 20_000, mem_limit_mb: 1536, with_scan: true };
+    let limits = Limits { max_objects: 40, time_limit_ms: if thorough { 20_000 } else { 10_000 }, mem_limit_mb: 1536, with_scan: true };
     if let Some(r) = replay {
         if r["stream"] == "c01.walk" {
             let bytes = unhex(r["file_hex"].as_str().unwrap_or("-")).unwrap_or_default();
@@ -221,16 +393,33 @@ pub fn run(driver: &Driver, seed: u64, thorough: bool, replay: Option<&serde_jso
             rep.oracles.push(or);
             return rep;
         }
-        if let Some(st) = corr::replay(driver, r) {
+        if let Some((st, or)) = corr::replay(driver, r) {
             rep.streams.push(st);
+            rep.oracles.push(or);
             return rep;
         }
     }
-    let (cases, notes) = build_cases(seed, thorough);
+    let (mut cases, notes, prep) = build_cases(seed, thorough);
     rep.notes.extend(notes);
-    let docs: Vec<Doc> = cases.iter().map(|c| c.doc.clone()).collect();
-    let results = walk_all(&docs, limits);
     let mut or = Oracle::new("c01.walk");
+    for p in prep {
+        or.fail(&p.signature, &p.what, p.replay);
+    }
+    // the deterministic documents first, in small batches: when many of them already fail (a reader that hangs or
+    // dies on ordinary files) the verdict is settled and the thousands of generated documents, each of which
+    // would run into the time limit, are not walked
+    cases.sort_by_key(|c| !matches!(c.family, "witness" | "fixtures" | "normalised"));
+    let n_first = cases.iter().filter(|c| matches!(c.family, "witness" | "fixtures" | "normalised")).count();
+    let first_docs: Vec<Doc> = cases[..n_first].iter().map(|c| c.doc.clone()).collect();
+    let mut results = walk_chunked(&first_docs, limits, 4);
+    let bad_first = results.iter().filter(|r| r.outcome != Outcome::Returned).count();
+    if bad_first >= 8 {
+        rep.notes.push(format!("{} of the {} deterministic documents (witnesses, fixtures, normalised fixtures) fail: the {} mutated / generated documents were not walked", bad_first, n_first, cases.len() - n_first));
+        cases.truncate(n_first);
+    } else {
+        let docs: Vec<Doc> = cases[n_first..].iter().map(|c| c.doc.clone()).collect();
+        results.extend(walk_all(&docs, limits));
+    }
     let mut calls_total: std::collections::BTreeMap<String, u64> = Default::default();
     let mut slowest = (0u64, String::new());
     for (c, r) in cases.iter().zip(results.iter()) {
@@ -254,6 +443,8 @@ pub fn run(driver: &Driver, seed: u64, thorough: bool, replay: Option<&serde_jso
     rep.extra.insert("entry_points_reached".into(), json!(calls_total));
     rep.extra.insert("slowest_document".into(), json!({"ms": slowest.0, "doc": slowest.1}));
     rep.oracles.push(or);
-    rep.streams.extend(corr::streams(driver, seed, thorough));
+    let (streams, entry) = corr::streams(driver, seed, thorough);
+    rep.streams.extend(streams);
+    rep.oracles.push(entry);
     rep
 }
